@@ -597,6 +597,40 @@ func init() {
 					continue
 				}
 				wa, wb := globalsWritten(c.P, a, m.pkg), globalsWritten(c.P, b, m.pkg)
+				// state nobody else consumes (a counter, a timestamp kept for debugging) cannot make a decision go stale:
+				// only variables that some other function of the package reads are compared
+				readElsewhere := map[string]bool{}
+				inPaths := map[*ssa.Function]bool{}
+				for _, f := range append(append([]*ssa.Function{}, a...), b...) {
+					for _, g := range withAnon(f) {
+						inPaths[g] = true
+					}
+				}
+				for _, f := range c.P.FuncsIn(modPath + "/" + m.pkg) {
+					if inPaths[f] || isTestOrExample(f) || !c.P.LiveFuncs()[f] {
+						continue
+					}
+					eachInstr(f, func(ins ssa.Instruction) {
+						for _, op := range ins.Operands(nil) {
+							if g, ok := (*op).(*ssa.Global); ok && g.Pkg != nil && relPkg(g.Pkg.Pkg.Path()) == m.pkg {
+								if st, isStore := ins.(*ssa.Store); isStore && st.Addr == ssa.Value(g) {
+									continue
+								}
+								readElsewhere[g.Name()] = true
+							}
+						}
+					})
+				}
+				for g := range wa {
+					if !readElsewhere[g] {
+						delete(wa, g)
+					}
+				}
+				for g := range wb {
+					if !readElsewhere[g] {
+						delete(wb, g)
+					}
+				}
 				var onlyA, onlyB []string
 				for g := range wa {
 					if !wb[g] {
@@ -764,6 +798,9 @@ func init() {
 									}
 									if _, isParamTR := resolve(a.X).(*ssa.Parameter); isParamTR && isTR(a.X.Type()) {
 										break
+									}
+									if _, local := resolve(a.X).(*ssa.Alloc); local {
+										break // a field of an object built in this very function
 									}
 									if bad == "" {
 										bad = fmt.Sprintf("%s (a field of %s) at %s", accessPath(x), types.TypeString(a.X.Type(), shortQual), c.P.Pos(r.Pos()))
